@@ -239,6 +239,27 @@ func materialise(o *c09Obj) (*sharedObj, string) {
 				return callResult{Toks: cloneToks(toks), Err: errStr(err)}
 			case "ebnf-string":
 				return callResult{Text: fx.EBNF()}
+			case "lex-past-eof":
+				var cr callResult
+				l, err := fx.Def().Lex("f", strings.NewReader(in))
+				if err != nil {
+					return callResult{Err: errStr(err)}
+				}
+				for extra := 0; extra < 3; {
+					t, err := l.Next()
+					if err != nil {
+						cr.Err = errStr(err)
+						break
+					}
+					cr.Toks = append(cr.Toks, t)
+					if t.EOF() {
+						extra++
+					}
+					if len(cr.Toks) > len(in)+8 {
+						break
+					}
+				}
+				return cr
 			case "sub-parse":
 				// a parser derived for an inner production shares the grammar's parser
 				if fx.Sub == nil {
@@ -510,7 +531,7 @@ func TestC09(t *testing.T) {
 			case "ebnf":
 				return []string{"string"}
 			case "fixture":
-				return []string{"string", "bytes", "reader", "lex", "ebnf-string", "string-trailing", "string-trace", "sub-parse", "ebnf-string"}
+				return []string{"string", "bytes", "reader", "lex", "ebnf-string", "string-trailing", "string-trace", "sub-parse", "ebnf-string", "lex-past-eof", "lex-past-eof"}
 			}
 			return []string{"string", "string", "bytes", "reader", "lex", "ebnf-string", "string-trailing", "string-trace", "lex-past-eof"}
 		}
